@@ -25,6 +25,7 @@
 #include "numeric.h" /* Using:  if(FLOAT_EQ(NumOne, NumTwo));*/
 #include "metricspace.h"
 #include "statistic.h"
+#include "verif_hooks.h"
 #include <math.h>
 #include <pthread.h>
 
@@ -285,6 +286,7 @@ void LVCalc(matrix *X,
     }
 
     /* Step 8 if t_old == t new with a precision PLSCONVERGENCE then stop iteration else restart from step 2 */
+    VERIF_ITER("LVCalc", loop, dot_u, dot_w, (loop == 0) ? 1.0 : calcConvergence(t_, t_old));
     if(loop == 0){
       for(i = 0; i < t_->size; i++)
         t_old->data[i] = t_->data[i];
